@@ -29,15 +29,17 @@ theorem C11_legacy (port : Nat) (hport : port ≠ 5353) (probe : Bool) (seen : S
   · exact Or.inr (Or.inl (h3.mpr (Or.inr ⟨hr, hroute⟩)))
 
 /-- the unicast reply: sent in the arrival block to the querier's address and port (on the receiving
-transport: `Out.ucast` has no other), with the query's id, and with the questions echoed exactly when
-the source port is not 5353 -/
+transport: `Out.ucast` has no other), with the id of the (first packet of the) query, and with that
+packet's questions echoed exactly when the source port is not 5353 (`nquestions` is the size of the
+echoed question section) -/
 theorem C11_unicast_reply {h : Host} {clock : Int} {pkts : List Pkt} {addr port : Nat} {seen : SeenMap} {draws : List Int}
     {r : StepOut} {rest : List Int} (hs : h.assemble clock pkts addr port seen draws = .ok (r, rest))
     {qa : QA} (hqa : asyncResponse pkts (Gen.Reply.ucast_source port) seen = some qa) :
     ∃ first, pkts.head? = some first ∧
       (qa.ucast.isEmpty = false →
-        Out.ucast addr port first.id (decide (port ≠ 5353)) qa.ucast.keys (additionalsOf qa.ucast) ∈ r.outs) ∧
-      (∀ o ∈ r.outs, ∀ a p i e x y, o = Out.ucast a p i e x y → a = addr ∧ p = port ∧ i = first.id ∧ (e = true ↔ port ≠ 5353) ∧ x = qa.ucast.keys) := by
+        Out.ucast addr port first.id (if port ≠ 5353 then first.nq else 0) qa.ucast.keys (additionalsOf qa.ucast) ∈ r.outs) ∧
+      (∀ o ∈ r.outs, ∀ a p i e x y, o = Out.ucast a p i e x y →
+        a = addr ∧ p = port ∧ i = first.id ∧ e = (if port ≠ 5353 then first.nq else 0) ∧ x = qa.ucast.keys) := by
   obtain ⟨first, hf, ho, _⟩ := assemble_spec hs hqa
   have hecho : Gen.Reply.ans_echo_questions (Gen.Reply.ucast_source (port : Int)) = decide (port ≠ 5353) := by
     rw [GenFacts.ans_echo_questions]
@@ -58,7 +60,7 @@ theorem C11_unicast_reply {h : Host} {clock : Int} {pkts : List Pkt} {addr port 
         rw [hmem, hecho] at hob
         simp only [Out.ucast.injEq] at hob
         obtain ⟨rfl, rfl, rfl, rfl, rfl, _⟩ := hob
-        simp
+        by_cases hp : port = 5353 <;> simp [hp]
     · split at hmem
       · cases hmem
       · simp only [List.mem_singleton, Out.ofMcast] at hmem; rw [hmem] at hob; cases hob
